@@ -377,6 +377,45 @@ fn nested_too_deeply(line: &str) -> bool {
     false
 }
 
+/// The conditional directive a line starts with (behind an optional label), told by its name
+/// alone; for lines the grammar cannot parse
+fn conditional_directive_by_name(line: &str) -> Option<Directive> {
+    let mut rest = line.trim_start();
+    // an optional label
+    if let Some(colon) = rest.find(':') {
+        let (label, tail) = rest.split_at(colon);
+        if !label.is_empty()
+            && label
+                .chars()
+                .all(|c| c.is_ascii_alphanumeric() || c == '_')
+        {
+            rest = tail[1..].trim_start();
+        }
+    }
+    let rest = rest.strip_prefix('.').or_else(|| rest.strip_prefix('#'))?;
+    let name: String = rest
+        .chars()
+        .take_while(|c| c.is_ascii_alphabetic())
+        .collect();
+    if rest[name.len()..]
+        .chars()
+        .next()
+        .map(|c| c.is_ascii_alphanumeric() || c == '_')
+        .unwrap_or(false)
+    {
+        return None;
+    }
+    match name.as_str() {
+        "if" => Some(Directive::If),
+        "ifdef" => Some(Directive::IfDef),
+        "ifndef" => Some(Directive::IfNDef),
+        "elif" => Some(Directive::ElIf),
+        "else" => Some(Directive::Else),
+        "endif" => Some(Directive::Endif),
+        _ => None,
+    }
+}
+
 #[derive(Clone, Copy, PartialEq, Eq, Debug)]
 pub enum NextItem {
     NewLine,
@@ -420,10 +459,20 @@ fn skip<'a>(
                 context.macros.macroses.borrow_mut().insert(name, items);
             } else {
                 while let Some((num, line)) = iter.next() {
-                    if nested_too_deeply(line) {
-                        // not a directive; let it be skipped unparsed
-                    } else if let Ok(item) = document::line(line) {
-                        if let Document::DirectiveLine(_, directive, _) = item {
+                    // a conditional directive is one by its name: it nests and closes even when
+                    // its operand is not an expression (`.if @0 == 1` in the body of a macro
+                    // that is defined inside a skipped arm)
+                    let directive = if nested_too_deeply(line) {
+                        conditional_directive_by_name(line)
+                    } else {
+                        match document::line(line) {
+                            Ok(Document::DirectiveLine(_, directive, _)) => Some(directive),
+                            Ok(_) => None,
+                            Err(_) => conditional_directive_by_name(line),
+                        }
+                    };
+                    {
+                        if let Some(directive) = directive {
                             if other == NextItem::EndIf || other == NextItem::EndIfAll {
                                 if directive == Directive::If
                                     || directive == Directive::IfDef
